@@ -699,6 +699,15 @@ impl<Front: SocketHandler> ConnectionH1<Front> {
                         stream.front.clear();
                         // do not stream.front.storage.clear() because of H1 pipelining
                         stream.attempts = 0;
+                        // Per-message H2 bookkeeping must not leak into the next
+                        // request of this slot: a reused H2 backend connection
+                        // would refuse the next response HEADERS on a stream it
+                        // believes already ended, and check the next DATA against
+                        // the previous message's byte count.
+                        stream.front_received_end_of_stream = false;
+                        stream.back_received_end_of_stream = false;
+                        stream.front_data_received = 0;
+                        stream.back_data_received = 0;
                         // Transition back to Idle so buffered pipelined requests
                         // trigger a phase transition on the next readable() call.
                         stream.state = StreamState::Idle;
